@@ -6,6 +6,30 @@
 #include "qlibc.h"
 #include <signal.h>
 
+/* C12: copies handed out by the library are kept and compared with a private duplicate when the
+ * container is released (a retained internal pointer would have been freed or overwritten) */
+typedef struct { void *p; void *dup; size_t n; } kept_t;
+static kept_t *kept; static size_t nkept, capkept;
+static void keep(void *p, size_t n) {
+    if (!p) return;
+    if (nkept == capkept) { capkept = capkept ? capkept * 2 : 256; kept = realloc(kept, capkept * sizeof(*kept)); }
+    kept[nkept].p = p; kept[nkept].n = n; kept[nkept].dup = malloc(n ? n : 1); memcpy(kept[nkept].dup, p, n); nkept++;
+    if (nkept > 4096) {      /* bound the memory: release the oldest half after checking it */
+        size_t h = nkept / 2;
+        for (size_t i = 0; i < h; i++) { if (memcmp(kept[i].p, kept[i].dup, kept[i].n)) abort(); vf_free(kept[i].p); free(kept[i].dup); }
+        memmove(kept, kept + h, (nkept - h) * sizeof(*kept)); nkept -= h;
+    }
+}
+static long check_kept(void) {
+    long bad = 0;
+    for (size_t i = 0; i < nkept; i++) {
+        if (memcmp(kept[i].p, kept[i].dup, kept[i].n)) bad++;
+        vf_free(kept[i].p); free(kept[i].dup);
+    }
+    nkept = 0;
+    return bad;
+}
+
 static qtreetbl_t *tbl;
 static qtreetbl_obj_t cur;
 static int quiet = 0;
@@ -67,7 +91,7 @@ static void refresh_live(void) {
     if (nlive) qsort(live, nlive, sizeof(*live), ptrcmp);
 }
 static void state(void) {
-    printf("num=%zu tid=%u chk=%d live=%ld ", tbl->num, (unsigned) tbl->tid, qtreetbl_check(tbl), aw_live);
+    printf("num=%zu tid=%u chk=%d live=%ld ", tbl->num, (unsigned) tbl->tid, qtreetbl_check(tbl), aw_live - (long) nkept);
     if (quiet) { printf("-"); return; }
     refresh_live();
     shape(tbl->root);
@@ -103,11 +127,12 @@ int main(void) {
             aw_begin();
             tbl = qtreetbl(0);
             aw_end();
-            if (tbl == NULL) { printf("null live=%ld\n", aw_live); tbl = qtreetbl(0); alarm(0); free(k.p); free(v.p); continue; }
+            int failed_ctor = (tbl == NULL);
+            if (failed_ctor) tbl = qtreetbl(0);
             int m = atoi(w[1]);
             qtreetbl_set_compare(tbl, m == 1 ? cmp_rev : m == 2 ? cmp_fold : cmp_count);
             memset(&cur, 0, sizeof(cur));
-            printf("ok "); state();
+            if (failed_ctor) printf("null live=%ld", aw_live - (long) nkept - 1); else { printf("ok "); state(); }
         } else if (!strcmp(op, "quiet")) {
             quiet = atoi(w[1]); printf("ok");
         } else if (!strcmp(op, "dump")) {
@@ -124,7 +149,7 @@ int main(void) {
             aw_begin();
             void *d = tbl->getobj(tbl, k.p, k.n, &sz, true);
             printf("allocs=%ld ", aw_end());
-            if (d) { printf("data "); puthex(stdout, d, sz); vf_free(d); } else printf("null");
+            if (d) { printf("data "); puthex(stdout, d, sz); keep(d, sz); } else printf("null");
             printf(" cost=%ld", cmp_calls);
         } else if (!strcmp(op, "rm") && nw == 2) {
             aw_begin();
@@ -139,13 +164,15 @@ int main(void) {
             errno = 0;
             void *n = op[1] == 'i' ? tbl->find_min(tbl, &sz) : tbl->find_max(tbl, &sz);
             printf("allocs=%ld ", aw_end());
-            if (n) { printf("key "); puthex(stdout, n, sz); vf_free(n); } else printf(errno == ENOMEM ? "ENOMEM" : "ENOENT");
+            if (n) { printf("key "); puthex(stdout, n, sz); keep(n, sz); } else printf(errno == ENOMEM ? "ENOMEM" : "ENOENT");
         } else if (!strcmp(op, "clear")) {
             tbl->clear(tbl); printf("ok "); state();
         } else if (!strcmp(op, "end")) {
             /* C11: once the container is released every block it allocated is freed */
             tbl->free(tbl);
-            printf("end live=%ld", aw_live);
+            /* the copies must have survived the release of the container */
+            long bad = check_kept();
+            printf("end live=%ld bad=%ld", aw_live, bad);
             tbl = qtreetbl(0);
             qtreetbl_set_compare(tbl, cmp_count);
             memset(&cur, 0, sizeof(cur));
@@ -163,7 +190,7 @@ int main(void) {
                     printf("item "); puthex(stdout, cur.name, cur.namesize); printf("=");
                     puthex(stdout, cur.data, cur.data ? cur.datasize : 0); printf(" ");
                 }
-                vf_free(cur.name); vf_free(cur.data);
+                keep(cur.name, cur.name ? cur.namesize : 0); keep(cur.data, cur.data ? cur.datasize : 0);
                 print_cur(); printf(" "); state();
             } else { printf(e == ENOMEM ? "enomem " : "done "); state(); }
         } else if (!strcmp(op, "walk")) {
@@ -189,7 +216,7 @@ int main(void) {
             else {
                 printf("found "); puthex(stdout, o.name, o.namesize); printf("=");
                 puthex(stdout, o.data, o.data ? o.datasize : 0); printf(" ");
-                vf_free(o.name); vf_free(o.data);
+                keep(o.name, o.namesize); keep(o.data, o.data ? o.datasize : 0);
                 cur = o; print_cur(); printf(" "); state();
             }
         } else {
@@ -200,6 +227,7 @@ int main(void) {
         free(k.p); free(v.p);
     }
     tbl->free(tbl);
+    check_kept(); free(kept);
     free(line); free(live);
     return 0;
 }
